@@ -62,6 +62,7 @@ type gbSpec struct {
 	Header     string
 	Sticky     bool
 	Mode       string
+	SlowStart  int // BackendConf.SlowStartTime in seconds (0 = off)
 }
 
 func jstr(s string) string { b, _ := json.Marshal(s); return string(b) }
@@ -109,8 +110,12 @@ func clusterConfJSON(gb gbSpec) string {
 	if gb.Header != "" {
 		hdr = `"HashHeader":` + jstr(gb.Header) + `,`
 	}
-	return fmt.Sprintf(`{"Version":"v1","Config":{%s:{"GslbBasic":{"CrossRetry":%d,"RetryMax":%d,"HashConf":{"HashStrategy":%d,%s"SessionSticky":%v},"BalanceMode":%s}}}}`,
-		jstr(clusterName), gb.CrossRetry, gb.RetryMax, gb.Strategy, hdr, gb.Sticky, jstr(gb.Mode))
+	bc := ""
+	if gb.SlowStart > 0 {
+		bc = fmt.Sprintf(`"BackendConf":{"SlowStartTime":%d},`, gb.SlowStart)
+	}
+	return fmt.Sprintf(`{"Version":"v1","Config":{%s:{%s"GslbBasic":{"CrossRetry":%d,"RetryMax":%d,"HashConf":{"HashStrategy":%d,%s"SessionSticky":%v},"BalanceMode":%s}}}}`,
+		jstr(clusterName), bc, gb.CrossRetry, gb.RetryMax, gb.Strategy, hdr, gb.Sticky, jstr(gb.Mode))
 }
 
 var confDir string
